@@ -15,6 +15,7 @@ import (
 	"flag"
 	"fmt"
 	"io"
+	"math"
 	"reflect"
 	"strings"
 	"time"
@@ -324,6 +325,12 @@ func modelStream(r *vh.Rng, n int, casesPath string, sum *vh.Summary) {
 			cj["diff"] = d
 			sum.FailC("model", "roundtrip:cbor:"+d, "Decode(Encode(v)) differs from v", cj)
 		}
+		if can, _ := o["Canonical"].(bool); can {
+			if bad := unsortedMap(obs); bad != "" {
+				cj["unsorted"] = bad
+				sum.FailC("model", "canonical-order:cbor:"+bad, "Canonical: the keys of an encoded map are not in ascending order", cj)
+			}
+		}
 		s2r, _ := o["StringToRaw"].(bool)
 		cv.Add(fmt.Sprintf("mkcase %d %s %s %s %s %s %s", i, coqOpts(o), vh.CoqBool(s2r), tyTerm, vh.CoqVal(v), obs.Coq(), vh.CoqVal(dst.Elem())))
 		sum.ModelCases++
@@ -349,6 +356,63 @@ func modelStream(r *vh.Rng, n int, casesPath string, sum *vh.Summary) {
 		}
 	}
 	cv.Close()
+}
+
+// keyLess orders two observed scalar keys of the same class; ok=false if the class is not ordered here.
+func keyLess(a, b *vh.Item) (less, ok bool) {
+	num := func(x *vh.Item) (float64, int64, uint64, int) { // class 1 = integer, 2 = float
+		switch x.K {
+		case vh.IInt:
+			return 0, x.I, 0, 1
+		case vh.IUint:
+			return 0, 0, x.U, 1
+		case vh.IF32:
+			return float64(math.Float32frombits(uint32(x.U))), 0, 0, 2
+		case vh.IF64:
+			return math.Float64frombits(x.U), 0, 0, 2
+		}
+		return 0, 0, 0, 0
+	}
+	switch {
+	case a.K == vh.IBool && b.K == vh.IBool:
+		return !a.B && b.B, true
+	case (a.K == vh.IStr || a.K == vh.IBytes) && (b.K == vh.IStr || b.K == vh.IBytes):
+		return bytes.Compare(a.S, b.S) < 0, true
+	}
+	fa, ia, ua, ca := num(a)
+	fb, ib, ub, cb := num(b)
+	if ca == 1 && cb == 1 {
+		switch {
+		case a.K == vh.IInt && b.K == vh.IInt:
+			return ia < ib, true
+		case a.K == vh.IInt:
+			return true, true // negative < non-negative
+		case b.K == vh.IInt:
+			return false, true
+		}
+		return ua < ub, true
+	}
+	if ca == 2 && cb == 2 {
+		return fa < fb, true
+	}
+	return false, false
+}
+
+// unsortedMap returns a description of the first map in it whose (scalar) keys are not strictly ascending.
+func unsortedMap(it *vh.Item) string {
+	bad := ""
+	it.Walk(func(x *vh.Item) {
+		if bad != "" || x.K != vh.IMap {
+			return
+		}
+		for i := 1; i < len(x.M); i++ {
+			if less, ok := keyLess(x.M[i-1][0], x.M[i][0]); ok && !less {
+				bad = fmt.Sprintf("keykind%d", x.M[i][0].K)
+				return
+			}
+		}
+	})
+	return bad
 }
 
 // ---- oracle stream ----
